@@ -108,6 +108,26 @@ CLAIMS = {
              "transitions of the bounded graph is driven through real tasks on asyncio and trio, current_context() of every task is sampled "
              "after every step and compared by the monitor; Context.parent of every new context is checked against the creator's current context.",
         design_ref="DESIGN.md §5 C12", note="Trusted: TLC, the worker-task driver (commands over memory streams, exact quiescence). How earlier blocks on a path ended is randomised."),
+    "C10": dict(
+        technique="exhaustive replay of the TLC state graph of specs/Signals.tla (subscribe / wait_event / dispatch / consume / leave) against "
+                  "real signals with one task per subscriber on asyncio and trio; delivered sequences, consume results, dispatch results and "
+                  "SignalQueueFull counts compared after every step; design invariants checked by TLC on a larger bound",
+        text="TLC proves on the Signals model (3 channels of 2 instances, 2 subscribers, <=3 events, queue sizes 0-2) in-order, duplicate-free, "
+             "filter- and channel-respecting delivery, bounded queues, exact subscriber registration, wait_event returning one event, and "
+             "dispatch isolation; every transition of the bounded graph (~270k) is executed against real streams: what each subscriber has "
+             "yielded (event number and channel from source/topic), blocking vs yielding consumers, per-subscriber overflow with its warning, "
+             "hand-off to a waiting receiver at queue size 0, leaving/cancelled subscribers, dispatch never raising.",
+        design_ref="DESIGN.md §5 C10, §4.4", note="Trusted: TLC, the graph walker (harness/graphwalk.py), one owner task per stream, exact quiescence. Event.time is type-checked only; a stream is never given the same signal twice."),
+    "C11": dict(
+        technique="the Signals graph replay with the cross-channel mask (delivery or warning on a channel that was not dispatched on, TypeError "
+                  "for a wrong event class) plus static rows validated by TLC (Trace_C11): bound-signal identity matrix in several access "
+                  "orders incl. an inheriting instance and a copied instance, attribute name / event class, UnboundSignal for every class-level "
+                  "use, weak binding",
+        text="Channel independence is decided on every transition of the bounded Signals graph (3 channels: two attributes of one instance, the "
+             "same attribute on another instance using inherited signals): a dispatch may only change subscribers of its own channel. The "
+             "identity matrix (same object iff same instance and attribute), topic and event class, the seven class-level uses that must raise "
+             "UnboundSignal and garbage-collectability of the owner are recorded from the real code and compared by TLC with the specification's table.",
+        design_ref="DESIGN.md §5 C11, §4.4", note="Trusted as C10; gc.collect() for the weak-binding rows. Instances with value-based __eq__/__hash__ are not explored."),
 }
 
 PENDING_REASON = "check not built yet in this build session; planned (DESIGN.md §5)"
